@@ -230,7 +230,7 @@ func c03Run(raw json.RawMessage) harn.Result {
 		panic(err)
 	}
 	res := harn.Result{Stats: map[string]int64{}}
-	warm := len(c.Src)%32 == 7 // one case in thirty-two on a well-used VM
+	warm := len(c.Src)%128 == 7 // one case in 128 on a well-used VM
 	full, site := c03Eval(c.Cfg, c.Src, warm)
 	viol := func(sig, what string) {
 		if len(res.Violations) < 1 {
